@@ -105,6 +105,45 @@ def rgbwReference (r g b : Nat) (mul div : Rat × Rat × Rat) : Nat × Nat × Na
     if (c : Rat) > corr then truncNat (rf ((c : Rat) - corr)) else 0
   (chan r div.1, chan g div.2.1, chan b div.2.2, w)
 
+/-! ### the conversion object and its setup calls (state machine over `sb_rgbw_conversion_use_*`) -/
+
+inductive Conv where
+  | fixed (v : Nat)
+  | subMin
+  /-- multipliers, divisors and the remembered colour temperature (`0` marks "not based on a temperature") -/
+  | ref (mul div : Rat × Rat × Rat) (temp : F32)
+  deriving DecidableEq, Inhabited
+
+/-- C `==` on binary32 values (−0 decodes to 0, NaN equals nothing) -/
+def floatEq (a b : F32) : Bool :=
+  match a, b with
+  | .fin x, .fin y => x = y
+  | .pinf, .pinf => true
+  | .ninf, .ninf => true
+  | _, _ => false
+
+/-- a zeroed `sb_rgbw_conversion_t` -/
+def Conv.zero : Conv := .fixed 0
+def Conv.useFixed (_ : Conv) (v : Nat) : Conv := .fixed v
+def Conv.turnOff (c : Conv) : Conv := c.useFixed 0
+def Conv.useMin (_ : Conv) : Conv := .subMin
+def Conv.useReference (_ : Conv) (rr rg rb : Nat) : Conv :=
+  let p := refParams rr rg rb
+  .ref p.1 p.2 (.fin 0)
+/-- `sb_rgbw_conversion_use_color_temperature`; `bb` is the black-body colour of `t` (libm's `powf`/`logf` are not
+modelled: the colour is an input).  The set-up is skipped when the object already holds this temperature. -/
+def Conv.useTemperature (c : Conv) (t : F32) (bb : Nat × Nat × Nat) : Conv :=
+  let fresh : Conv := let p := refParams bb.1 bb.2.1 bb.2.2; .ref p.1 p.2 t
+  match c with
+  | .ref _ _ t0 => if floatEq t0 t then c else fresh
+  | _ => fresh
+/-- `sb_rgb_color_to_rgbw` -/
+def Conv.convert (c : Conv) (r g b : Nat) : Nat × Nat × Nat × Nat :=
+  match c with
+  | .fixed v => (r, g, b, v)
+  | .subMin => rgbwSubtractMin r g b
+  | .ref mul div _ => rgbwReference r g b mul div
+
 /-! ### growable byte buffer -/
 
 structure Buf where
